@@ -256,6 +256,7 @@ def run(R, tier):
             compare_with_model(R, f'C09_{hi}', S2.alg, S2.regs, wrapper, top, probe2, algs.describe(spec))
     reused_objects(R, rng, tier)
     symbolic_calls(R, rng, tier)
+    large_algebra_histories(R, rng, tier)
     # ---- one thread held inside code generation while another makes the same call ----
     for ti in range(6 if tier == 'quick' else 60):
         held_codegen(R, rng, ti, tier)
@@ -388,6 +389,41 @@ def reused_objects(R, rng, tier):
                             {'algebra': spec, 'reused': True, 'op': op, 'keys': list(ks), 'got': str(g)[:300], 'fresh': str(w)[:300]},
                             f'{op} on a multivector object that was used before and then updated in place (keys {ks}, {"ndarray" if arr else "list"}-backed) in Algebra({algs.describe(spec)}) '
                             f'returned {str(g)[:200]}, fresh operands with the same current values give {str(w)[:200]}')
+
+
+def large_algebra_histories(R, rng, tier):
+    """d >= 6 (iterative inverse, lazily filled tables): short histories of inv / div / products on vectors and sparse elements,
+    every call compared with a fresh algebra."""
+    from kingdon import MultiVector
+    for it in range(4 if tier == 'quick' else 60):
+        d = rng.choice((6, 6, 7))
+        spec = {'sig': [rng.choice((1, -1, 1)) for _ in range(d)]}
+        alg = algs.make_impl(spec)
+        gens = [1 << i for i in range(d)]
+        def vec():
+            ks = rng.sample(gens, rng.randint(1, 3))
+            return [(k, float(rng.randint(1, 5))) for k in ks]
+        v, u = vec(), vec()
+        biv = [(gens[0] | gens[1], 2.0), (gens[2] | gens[3], 1.0)]
+        calls = [('inv', [v]), ('div', [u, v]), ('op', [biv, v]), ('gp', [v, biv]), ('gp', [biv, v]), ('cp', [biv, v]), ('inv', [u]), ('div', [v, u])]
+        rng.shuffle(calls)
+        done = []
+        for name, operands in calls[:6]:
+            def run(a):
+                mvs = [MultiVector.fromkeysvalues(a, tuple(k for k, _ in it_), [x for _, x in it_]) for it_ in operands]
+                try:
+                    r = getattr(a, name)(*mvs)
+                    return ('ok', [(int(k), float(x)) for k, x in zip(r.keys(), r.values())])
+                except Exception as e:  # noqa
+                    return ('err', type(e).__name__)
+            got, want = run(alg), run(algs.make_impl(spec))
+            R.count('history=large-algebra'); R.count('call=' + name); R.case(('large', it, name, tuple(done)), bool(done))
+            ok = got[0] == want[0] and (same(got[1], want[1]) if got[0] == 'ok' else got[1] == want[1])
+            if not ok:
+                R.violation({'clause': 'history', 'via': 'large-algebra'},
+                            {'algebra': spec, 'history': done + [name], 'operands': operands, 'got': str(got)[:300], 'fresh': str(want)[:300]},
+                            f'{name} on {operands} after {done} in Algebra({algs.describe(spec)}) returned {str(got)[:200]}, a fresh algebra returns {str(want)[:200]}')
+            done.append(name)
 
 
 def symbolic_calls(R, rng, tier):
